@@ -397,8 +397,8 @@ func nilContainers(b *tbuf, t *Target, gt *getterTable) {
 			}
 			mj := t.B.ToMessage(0, junk)
 			mc := t.B.ToMessage(0, clean)
-			if pass == 1 && gt.names[0][j] != "" {
-				typedNilWrapperGetter(b, t, gt, j, junk, mj)
+			if (pass == 1 || what == "oneof-wrapper-nil") && gt.names[0][j] != "" {
+				typedNilWrapperGetter(b, t, gt, j, junk, t.B.ToMessage(0, junk))
 			}
 			dyn := dynamicpb.NewMessage(t.Desc)
 			cb, err := proto.MarshalOptions{Deterministic: true}.Marshal(mc)
@@ -534,10 +534,23 @@ func typedNilWrapperGetter(b *tbuf, t *Target, gt *getterTable, j int, junk *vva
 			hist = append(hist, &rop{name: "getter", j: k})
 		}
 	}
+	mutAt := -1
+	if S.Msgs[0].Fields[j].IsMsg {
+		// Mutable must hand out a message that can be written (proto.Merge into such a message relies on it):
+		// allocate when the wrapper is a typed nil / holds no message
+		mutAt = len(hist)
+		hist = append(hist, &rop{name: "mut", j: j}, &rop{name: "has", j: j},
+			&rop{path: []rstep{{kind: "in", j: j}}, name: "setu", raw: []byte{0x98, 0x3f, 0x01}},
+			&rop{path: []rstep{{kind: "in", j: j}}, name: "getu"})
+	}
 	var ops, outs []string
 	for _, op := range hist {
 		o, _ := ma.exec(op)
 		ops, outs = append(ops, op.String()), append(outs, o)
+	}
+	if mutAt >= 0 && (outs[mutAt] != "ok" || outs[mutAt+1] != "t" || outs[mutAt+2] != "ok" || outs[mutAt+3] != "u983f01") {
+		b.Violate("C10", "mutable-on-nil-wrapper", fmt.Sprintf("Mutable of oneof message member %d on a wrapper that is a typed nil / holds no message: outputs %v (want ok, t, ok, u983f01)", j, outs[mutAt:]),
+			S.Line()+"\n# nil-pass type "+t.Full+" value "+junk.String()+" ops "+strings.Join(ops, " ; "))
 	}
 	b.Count("getter_on_typed_nil_wrapper:getter=" + outs[0] + ",get=" + clip(outs[1], 8) + ",has=" + outs[2])
 	if S.Supported {
